@@ -61,7 +61,7 @@ def run(ctx):
     if not ok_make or (pr and not pr["ok"]):
         ctx.violation("Coq development for C16 does not check",
                       {"theorem_or_correspondence": "Props/C16.v (C16_roundtrip, C16_assemble_total, "
-                       "C16_qm31_rejected)", "detail": (pr or {}).get("log", "")[-2000:],
+                       "C16_qm31_rejected, C16_step_sound)", "detail": (pr or {}).get("log", "")[-2000:],
                        "hygiene": (pr or {}).get("hygiene"), "unknown_axioms": (pr or {}).get("unknown_axioms")},
                       found_input=False)
 
@@ -73,7 +73,8 @@ def run(ctx):
     ctx.cov.update({
         "obligations": pr["obligations"] if pr else 0,
         "discharged": pr["discharged"] if pr else 0,
-        "property_theorems": ["C16_roundtrip", "C16_assemble_total", "C16_qm31_rejected", "C16_example"],
+        "property_theorems": ["C16_roundtrip", "C16_assemble_total", "C16_qm31_rejected", "C16_step_sound", "C16_example",
+                              "C16_step_example"],
         "print_assumptions": (pr or {}).get("axioms", []),
         "evaluations": n_cases,
         "distinct_nontrivial": summary.get("enc_cases", 0) - summary.get("enc_rejected_by_impl", 0)
@@ -92,8 +93,11 @@ def run(ctx):
     })
     return ctx.finish(
         "proof",
-        "Theorem (Coq, unbounded in offsets/immediates): decode(encode(assemble i)) = flags/offsets of i, "
-        "|encode| = op_size = VM instruction size, immediate = 2nd word, QM31 side condition is exact. "
+        "Theorems (Coq, unbounded in offsets/immediates/states): decode(encode(assemble i)) = flags/offsets of i, "
+        "|encode| = op_size = VM instruction size, immediate = 2nd word, QM31 side condition is exact "
+        "(C16_roundtrip, C16_qm31_rejected); one step of the modelled VM on those flags, from any machine state "
+        "(unknown cells, relocatables), does what the instruction denotes when read off its syntax (C16_step_sound, "
+        "Stone extension; premise: the defining equation of the field inverse used for product deductions). "
         "Exploration (not proof): the hand model is compared with cairo-lang-casm and cairo-vm on the same "
         "inputs (assemble/encode/op_size, decode_instruction incl. error cases, one VM step incl. deduction), "
         "and an impl-level oracle checks that each real VM step does what the CASM syntax denotes.",
